@@ -64,6 +64,7 @@ pub fn worker_main(args: &[String]) -> i32 {
     let mut foreign_example: BTreeMap<String, String> = BTreeMap::new();
     let mut trace: Vec<(u64, u64)> = vec![];
     let mut runs = 0u64;
+    let mut evals = 0u64;
     let mut found = false;
     for i in from..to {
         {
@@ -75,6 +76,7 @@ pub fn worker_main(args: &[String]) -> i32 {
         let want_case = samples.len() < 2;
         let rep: Report = eng.run_seed(profile, seed, prop, want_case);
         runs += 1;
+        evals += rep.executions.max(1);
         for (k, v) in &rep.counters {
             *counters.entry(k.clone()).or_insert(0) += v;
         }
@@ -135,6 +137,7 @@ pub fn worker_main(args: &[String]) -> i32 {
         .collect();
     let d = json!({
         "runs": runs,
+        "evals": evals,
         "counters": counters,
         "sets": sets_json,
         "nontrivial": nontrivial.into_iter().collect::<Vec<u64>>(),
@@ -289,6 +292,7 @@ enum Msg {
 
 pub struct PartResult {
     pub runs: u64,
+    pub evals: u64,
     pub counters: BTreeMap<String, u64>,
     pub sets: BTreeMap<String, BTreeSet<u64>>,
     pub nontrivial: BTreeSet<u64>,
@@ -364,6 +368,7 @@ pub fn run_part(
     let mut got_summary: Vec<bool> = vec![false; n];
     let mut res = PartResult {
         runs: 0,
+        evals: 0,
         counters: BTreeMap::new(),
         sets: BTreeMap::new(),
         nontrivial: BTreeSet::new(),
@@ -394,6 +399,7 @@ pub fn run_part(
                     if let Ok(d) = serde_json::from_str::<Value>(r) {
                         got_summary[w] = true;
                         res.runs += d["runs"].as_u64().unwrap_or(0);
+                        res.evals += d["evals"].as_u64().unwrap_or(0);
                         if let Some(c) = d["counters"].as_object() {
                             for (k, v) in c {
                                 *res.counters.entry(k.clone()).or_insert(0) += v.as_u64().unwrap_or(0);
@@ -512,6 +518,7 @@ pub fn check_main(prop: &str, tier: &str, plan: &Plan) -> i32 {
     let t0 = Instant::now();
     let known = load_known();
     let mut total_runs = 0u64;
+    let mut total_evals = 0u64;
     let mut counters: BTreeMap<String, u64> = BTreeMap::new();
     let mut sets: BTreeMap<String, BTreeSet<u64>> = BTreeMap::new();
     let mut nontrivial: BTreeSet<u64> = BTreeSet::new();
@@ -535,6 +542,7 @@ pub fn check_main(prop: &str, tier: &str, plan: &Plan) -> i32 {
         rules.push(format!("[{}:{}] {}", part.engine, part.profile, eng.rule(part.profile, prop)));
         components.push(json!({"engine": part.engine, "components": eng.components()}));
         total_runs += r.runs;
+        total_evals += r.evals;
         capped |= r.capped;
         for (k, v) in r.counters {
             *counters.entry(k).or_insert(0) += v;
@@ -633,7 +641,8 @@ pub fn check_main(prop: &str, tier: &str, plan: &Plan) -> i32 {
         "seed": base,
         "level": plan.level,
         "coverage": {
-            "evaluations": total_runs,
+            "evaluations": total_evals,
+            "seeded_histories": total_runs,
             "distinct_nontrivial": nontrivial.len(),
             "rule": rules.join(" | "),
             "samples": samples,
